@@ -74,8 +74,11 @@ class Models:
         if not r.ok:
             raise tlc.TLCError(f"Session model ({cfg}): {r.invariant_violated or 'postcondition / error'}: the implementation layer "
                                f"contradicts the property layer outside the documented deviation classes\n{r.out[-2500:]}")
-        if actions is not None:   # vacuity: the actions of this part must all have been taken
-            zero = [a for a in tlc.coverage_zero_actions(r.out) if a in actions]
+        if actions is not None:   # vacuity: the actions of this part must all have been taken (-coverage 1 action counts)
+            import re
+            taken = {m.group(1) for m in re.finditer(r"<(\w+) line \d+, col \d+ to line \d+, col \d+ of module Session>: (\d+):(\d+)", r.out)
+                     if int(m.group(3)) > 0}
+            zero = sorted(set(actions) - taken)
             if zero:
                 raise tlc.TLCError(f"vacuity: actions never taken in {cfg}: {zero}")
         return json.loads(out.read_text())
@@ -885,7 +888,8 @@ def selftest_replay(ctx, exports):
 
 GLOB_ACTIONS = {"GlobApSkip", "GlobApAppend", "GlobApEnd", "GlobNidqAppend", "GlobEnd"}
 SYNC_ACTIONS = {"SyncNoSystem", "SyncPinOut", "SyncOther"}
-RECON_ACTIONS = {"ReconConstruct", "ReconPrepare", "ReconParams", "ReconWrite", "ReconMeta", "ReconCompressOrReturn", "ReconReturn"}
+RECON_ACTIONS = {"ReconConstruct", "ReconPrepareRaise", "ReconPrepareNot24", "ReconPrepareCount", "ReconPrepareOk", "ReconParams",
+                 "ReconWrite", "ReconMetaKeep", "ReconMetaWrite", "ReconCompress", "ReconReturnPlain", "ReconReturn"}
 READER_ACTIONS = {"ReaderOpen", "ReaderClose", "ReaderEnter", "ReaderExit", "ReaderRead", "ReaderIsOpen"}
 
 
